@@ -220,16 +220,6 @@ theorem missing_zero {U s : List String} (h : missing U s = 0) : ∀ u ∈ U, u 
   rw [hnil] at this
   cases this
 
-theorem lookup_mem {g : Graph} {r : String} {ps : List String} (h : lookup r g = some ps) : ∃ k, (k, ps) ∈ g := by
-  induction g with
-  | nil => simp [lookup] at h
-  | cons e g ih =>
-    obtain ⟨k, qs⟩ := e
-    simp only [lookup] at h
-    split at h
-    · cases h; exact ⟨k, List.mem_cons_self⟩
-    · obtain ⟨k', hk⟩ := ih h; exact ⟨k', List.mem_cons_of_mem _ hk⟩
-
 theorem parent_mem_allNames {g : Graph} {roles : List String} {x p : String} (h : parentOf g x p) :
     p ∈ allNames g roles := by
   unfold parentOf parents at h
